@@ -62,6 +62,10 @@ def run_case(shape, v, mode, backend, version, out, expect="ok"):
         if res.verdict != "FAIL":
             return "out-of-range run-time value did not fail: %s logs=%r" % (res.verdict, res.logs), text
         return None, text
+    if res.verdict == "RESOURCE":
+        # the observation channel (log: 1024 bytes) is too small for this value: not comparable
+        cnt["not_comparable_resource"] = cnt.get("not_comparable_resource", 0) + 1
+        return None, text
     if res.verdict != "APPROVE":
         return "program does not approve: %s %s (line %s)" % (res.verdict, res.why, res.line), text
     want = abi_gen.encode(shape, v)
